@@ -76,8 +76,11 @@ class Realisation:
     without any input gets a private external input ``p{i}``.
     """
 
-    def __init__(self, n: int, edges, two_out=None, x_nodes=(), opt=None):
+    def __init__(self, n: int, edges, two_out=None, x_nodes=(), opt=None, state=None):
         self.n = n
+        # nodes with a state variable s{i} (both an input and an output, declared through residual_to_state_variable with
+        # the residual output r{i}): a state variable is not a coupling and makes no self-loop
+        self.state = [bool(int(state[i % len(state)])) if state else False for i in range(n)]
         self.two_out = [bool(two_out[i]) if two_out else False for i in range(n)]
         self.outs = [[f"v{i}"] + ([f"w{i}"] if self.two_out[i] else []) for i in range(n)]
         ins: list[list[str]] = [[] for _ in range(n)]
@@ -128,6 +131,12 @@ class Realisation:
         self.reach = closure(n, self.adj)
         self.comp = components(n, self.reach)
 
+    def full_ins(self, i: int) -> list[str]:
+        return self.ins[i] + ([f"s{i}"] if self.state[i] else [])
+
+    def full_outs(self, i: int) -> list[str]:
+        return self.outs[i] + ([f"s{i}", f"r{i}"] if self.state[i] else [])
+
     def group_of(self, i: int) -> list[int]:
         return [j for j in range(self.n) if self.comp[j] == self.comp[i]]
 
@@ -145,7 +154,9 @@ class Realisation:
         for name, i in self.producer.items():
             if any(self.comp[j] == self.comp[i] for j in self.consumers(name)):
                 exact.add(name)
-        return exact, set(exact)
+        # a state variable of a strongly coupled discipline: not a coupling for the reference; tolerated (it is an input
+        # and an output of a member of the group)
+        return exact, exact | {f"s{i}" for i in range(self.n) if self.state[i] and self.is_strong(i)}
 
     def weak_couplings_bounds(self):
         low, up = set(), set()
@@ -154,6 +165,9 @@ class Realisation:
                 up.add(name)
                 if any(j != i for j in self.consumers(name)):
                     low.add(name)
+        for i in range(self.n):
+            if self.state[i] and not self.is_strong(i):
+                up.update({f"s{i}", f"r{i}"})
         return low, up
 
     def all_couplings_bounds(self):
@@ -164,6 +178,7 @@ class Realisation:
                 low.add(name)
             if cons:
                 up.add(name)
+        up.update(f"s{i}" for i in range(self.n) if self.state[i])
         return low, up
 
 
@@ -177,8 +192,10 @@ def graph_disciplines(real: Realisation, dup_names: bool = False):
 
         def __init__(self, name, node):
             super().__init__(name)
-            self.io.input_grammar.update_from_names(real.ins[node])
-            self.io.output_grammar.update_from_names(real.outs[node])
+            self.io.input_grammar.update_from_names(real.full_ins(node))
+            self.io.output_grammar.update_from_names(real.full_outs(node))
+            if real.state[node]:
+                self.io.residual_to_state_variable = {f"r{node}": f"s{node}"}
             for name_ in real.ins[node]:
                 if (node, name_) in real.optional:
                     self.io.input_grammar.defaults[name_] = np.zeros(1)
@@ -270,8 +287,12 @@ class LinearSystem:
                 super().__init__(name)
                 self.node = node
                 real = system.real
-                self.io.input_grammar.update_from_names(real.ins[node])
-                self.io.output_grammar.update_from_names(real.outs[node])
+                self.io.input_grammar.update_from_names(real.full_ins(node))
+                self.io.output_grammar.update_from_names(real.full_outs(node))
+                if real.state[node]:
+                    # the state passes through unchanged and its residual is zero: every value of the state is a solution
+                    self.io.residual_to_state_variable = {f"r{node}": f"s{node}"}
+                    self.io.input_grammar.defaults[f"s{node}"] = np.zeros(1)
                 for u in real.ins[node]:
                     if (coupling_defaults or u not in system.offset) and (node, u) not in no_default:
                         self.io.input_grammar.defaults[u] = np.zeros(system.size[u])
@@ -288,6 +309,9 @@ class LinearSystem:
                     for u in real.ins[self.node]:
                         y = y + system.mat[(o, u)] @ np.asarray(input_data[u], dtype=float)
                     out[o] = y
+                if real.state[self.node]:
+                    out[f"s{self.node}"] = np.array(input_data[f"s{self.node}"], dtype=float)
+                    out[f"r{self.node}"] = np.zeros(1)
                 return out
 
         return [_Linear("D" if dup_names else f"D{i}", i) for i in range(self.real.n)]
